@@ -4606,11 +4606,14 @@ struct LoadOptionsRef<'a> {
 
 #[derive(Debug, Default)]
 struct PendingState<'a> {
-  deferred: HashMap<ModuleSpecifier, DeferredLoad>,
+  // insertion ordered so that the order loads are queued in (and with it
+  // which importer becomes the recorded referrer of a shared dependency)
+  // does not depend on the hasher state
+  deferred: IndexMap<ModuleSpecifier, DeferredLoad>,
   pending: FuturesOrdered<PendingInfoFuture<'a>>,
   jsr: PendingJsrState,
   npm: PendingNpmState,
-  dynamic_branches: HashMap<ModuleSpecifier, PendingDynamicBranch>,
+  dynamic_branches: IndexMap<ModuleSpecifier, PendingDynamicBranch>,
 }
 
 #[derive(Debug, Clone, Copy, PartialEq, Eq)]
